@@ -31,6 +31,8 @@ theorem bind_snd (x : W α) (f : α → W β) (j : Nat) :
     (W.bind x f).2 j = x.2 j + (match x.1 with | none => 0 | some a => (f a).2 j) := by
   unfold W.bind; cases x.1 <;> rfl
 
+@[simp] theorem match_zero (m : Option α) : (match m with | none => 0 | some _ => (0 : Nat)) = 0 := by cases m <;> rfl
+
 theorem bnd_opt_fst (o : Option α) (f : α → W β) : (o >>== f).1 = o.bind fun a => (f a).1 := by
   show (W.bind (W.lift o) f).1 = _
   rw [bind_fst]; rfl
@@ -75,6 +77,15 @@ theorem loopW_fst (k : Nat) (f : ι → σ → W (σ × Bool)) :
     | none => rfl
     | some r =>
       simp only [Option.bind_some, ite_fst, ret_fst, ih]
+
+theorem loopW_cons_fst (k : Nat) (x : ι) (xs : List ι) (s : σ) (f : ι → σ → W (σ × Bool)) :
+    (loopW? k (x :: xs) s f).1 = (f x s).1.bind fun r => if r.2 then some r.1 else (loopW? k xs r.1 f).1 := by
+  rw [loopW_cons, bind_fst]
+  show (W.bind (f x s) _).1 = _
+  rw [bind_fst]
+  cases (f x s).1 with
+  | none => rfl
+  | some r => simp only [Option.bind_some, ite_fst, ret_fst]
 
 /-- ticks of one iteration -/
 theorem loopW_cons_snd (k : Nat) (x : ι) (xs : List ι) (s : σ) (f : ι → σ → W (σ × Bool)) (j : Nat) :
@@ -165,5 +176,17 @@ theorem loopW_other (k j : Nat) (hj : j ≠ k) (f : ι → σ → W (σ × Bool)
       split
       · rfl
       · rw [ih]
+
+/-- a body that neither raises nor breaks nor ticks: the loop ticks its counter once per element. -/
+theorem loopW_fold_snd (k : Nat) (g : ι → σ → σ) (j : Nat) :
+    ∀ (xs : List ι) (s : σ), (loopW? k xs s (fun x s => W.ret (g x s, false))).2 j = if j = k then xs.length else 0 := by
+  intro xs
+  induction xs with
+  | nil => intro s; simp [loopW_nil]
+  | cons x xs ih =>
+    intro s
+    rw [loopW_cons_snd]
+    simp only [ret_snd, ret_fst, Bool.false_eq_true, if_false, ih, List.length_cons]
+    split <;> omega
 
 end TonVerif.Proofs.SrcW
